@@ -513,6 +513,23 @@ func (c *codecCtx) byteCodecCase(codec string, r *mon.Rand, thorough, script boo
 		c.judgeRoundtrip(codec, cls, x, g, spec, "script-")
 	}
 
+	// --- what encode returned is the caller's: later encodes must not change it
+	if apiOK && codec != "urlquery" {
+		o.call("codec:"+codec+":held-roundtrip", cls)
+		if h := callBuiltinObj(c.enc, x.Obj(), object.NewString(codec)); h.obj != nil {
+			for i := 0; i < 2; i++ {
+				_ = callBuiltinObj(c.enc, vBytes(genBlob(r, false)).Obj(), object.NewString(codec))
+			}
+			c.judgeRoundtrip(codec, cls, x, c.decode(h.obj, codec), spec, "held-")
+			if script {
+				g := c.v.evalScript("e1 := encode(a0, a1); e2 := encode(a2, a1); e3 := encode(a0 + a2, a1); decode(e1, a1)", []V{x, vStr(codec), vBytes(genBlob(r, false))})
+				if !g.IsErr || !strings.Contains(g.String(), "unsupported operation") {
+					c.judgeRoundtrip(codec, cls, x, g, spec, "script-held-")
+				}
+			}
+		}
+	}
+
 	// --- malformed input must be rejected
 	var bad []byte
 	var kind string
